@@ -150,7 +150,50 @@ func elemFromLimbs(l []uint64, src string) Elem {
 	return Elem{fe: field.VerifFromLimbs(l), val: limbsValue(l), src: src}
 }
 
+// wordBoundary121666 builds operands of the multiply-by-constant whose partial products a_i*121666 end just
+// below a 64-bit word boundary while the limb below produces a large carry-in: the place where a dropped
+// carry between the low and the high word of a 128-bit accumulator would show.
+func wordBoundary121666(rng *rand.Rand) []uint64 {
+	n := len(weights)
+	l := make([]uint64, n)
+	for i := range l {
+		lim := limit("mul", i)
+		switch rng.IntN(3) {
+		case 0:
+			l[i] = lim - 1 - uint64(rng.IntN(1000)) // large carry-out
+		default:
+			// a = floor((m*2^64 - 1 - d) / 121666) for the m that fit below the limb bound
+			hi := new(big.Int).Mul(new(big.Int).SetUint64(lim-1), big.NewInt(121666))
+			hi.Rsh(hi, 64)
+			mmax := hi.Uint64()
+			if mmax == 0 {
+				l[i] = rng.Uint64N(lim)
+				continue
+			}
+			m := 1 + rng.Uint64N(mmax)
+			v := new(big.Int).Lsh(new(big.Int).SetUint64(m), 64)
+			v.Sub(v, big.NewInt(1+int64(rng.IntN(200000))))
+			v.Div(v, big.NewInt(121666))
+			l[i] = v.Uint64()
+			if l[i] >= lim {
+				l[i] = lim - 1
+			}
+		}
+	}
+	return l
+}
+
 func limbStress(x *ctx, rng *rand.Rand) {
+	if field.VerifBackend == "u64" {
+		for i := 0; i < 40; i++ {
+			la := wordBoundary121666(rng)
+			a := elemFromLimbs(la, "mul/word-boundary-121666")
+			var out field.Element
+			x.r.Eval([]byte(fmt.Sprint("wb", la)))
+			x.r.Hist("limb-pattern/mul/word-boundary-121666")
+			x.expect("Mul121666", out.Mul121666(&a.fe), new(big.Int).Mul(a.val, big.NewInt(121666)), func() string { return describe(&a.fe) })
+		}
+	}
 	for i := 0; i < 30; i++ {
 		la, na := genLimbs(rng, "mul")
 		lb, nb := genLimbs(rng, "mul")
